@@ -1016,6 +1016,13 @@ fn rename_typedef_refs(merge_module: &mut Module, rename_table: &HashMap<String,
             }
         }
     }
+
+    // MODULE.INSTANCE
+    for instance in &mut merge_module.instance {
+        if let Some(newname) = rename_table.get(&instance.type_ref) {
+            instance.type_ref = newname.to_owned();
+        }
+    }
 }
 
 // ------------------------ USER_RIGHTS ------------------------
